@@ -442,8 +442,15 @@ PROPERTY_NOTES.update({
          "C14.timeout / C03.reply_*: default deadline used, expiry answers once, a late reply is discarded, reply cancels and destroys the timer.",
          "outside": "'no earlier than the deadline' (kernel timerfd semantics); reply and expiry harvested in the same epoll batch (stale event in "
          "the batch, DESIGN.md F-C14b) has no obligation yet."},
- "C15": {"composition": "alloc_cap_*: a refused allocation accounts nothing; fresh_peer_groups: a failed peer initialisation leaves no peer behind.",
-         "outside": "single-fault enumeration over the request handlers is not built yet (planned: symbolic k-th allocation failure in the scenario harnesses)."},
+ "C15": {"composition": "alloc_failure_<handler>_k<n>: for each of the nine request types (add, fetch, change, remove, unfetch, set, get, config, info) and "
+         "each allocation attempt n of the fault-free request (daemon allocations and the JSON library's per-node / per-string allocations alike, "
+         "counted by the shared allocator stub; the count N is asserted), the real dispatcher and handler run with exactly that attempt failing: "
+         "no invalid memory access (CBMC pointer checks on the real code), at most one response and it has result xor error, an error answer "
+         "leaves the element/value unchanged, and after both peers disconnect the live-block count is back at its baseline (no leak). "
+         "alloc_cap_*: a refused allocation accounts nothing; fresh_peer_groups: a failed peer initialisation leaves no peer behind.",
+         "outside": "the failing attempt is enumerated by the runner (one obligation per attempt), not a solver variable: a symbolic index made every "
+         "allocation site fork and gave no verdict in 400 s even for a window of 4; only the data is symbolic. Multi-fault runs; teardown paths "
+         "under failure; websocket/http peer creation; failures inside the real cJSON (the model allocates at the same granularity)."},
 })
 for _p in ("C01", "C02", "C03", "C04", "C05", "C06", "C07", "C08", "C09", "C10", "C11", "C12", "C13", "C14", "C15", "C16", "C17", "C18"):
     PROPERTY_NOTES[_p]["level_text"] = _BMC
@@ -469,16 +476,20 @@ _also(["C05.ws_header_eof"], ["C12"])
 
 # ------------------------------------------------------------------------------------------------ C15 single allocation failure
 _scn_alloc = dict(_scn, harness="harness/scn_alloc.c", flags=_scn["flags"] + ["--no-bounds-check"],
-                  unwindset=dict(_scn["unwindset"], **{"harness_alloc_failure.0": 12, "harness_alloc_failure.1": 12}))
-_STEPS = [(0, "add"), (1, "fetch"), (2, "change"), (3, "remove"), (4, "unfetch"), (5, "set"), (6, "get"), (7, "config"), (8, "info")]
-for _s, _nm in _STEPS:
-    O(id="C15.alloc_failure_" + _nm, props=["C15", "C06", "C07"], entry="harness_alloc_failure", reach=["no_failure", "failure_injected"],
-      defines=["STEP=%d" % _s, "MAXK=40"],
-      functions=["parse_message", "handle_method", "send_response", "the handler of '%s' and everything it calls" % _nm, "free_peer_resources"],
-      symbolic="index k (0..40) of the allocation attempt that fails during the request (daemon and JSON-library allocations), state value",
-      assumes=["set-up requests succeed (no fault)"], bounds="one '%s' request with one allocation failure, then both peers disconnect; 2 peers, <= 1 element, <= 1 fetch" % _nm,
-      **_scn_alloc)
-_also(["C15.alloc_failure_"], ["C06", "C07"])
+                  unwindset=dict(_scn["unwindset"], **{"harness_alloc_failure.0": 12, "harness_alloc_failure.1": 12, "verif_router_snprintf.0": 10, "verif_router_snprintf.1": 5}))
+# (handler, number of allocation attempts of the fault-free request: measured with the native build, asserted by
+#  C15.failure_injected_as_planned in every obligation)
+_STEPS = [(0, "add", 11), (1, "fetch", 27), (2, "change", 25), (3, "remove", 23), (4, "unfetch", 6), (5, "set", 16), (6, "get", 14), (7, "config", 7), (8, "info", 24)]
+for _s, _nm, _n in _STEPS:
+    for _k in range(_n + 1):
+        O(id="C15.alloc_failure_%s_k%02d" % (_nm, _k), props=["C15", "C06", "C07"], entry="harness_alloc_failure",
+          defines=["STEP=%d" % _s, "KBASE=%d" % _k, "NALLOC=%d" % _n],
+          functions=["parse_message", "handle_method", "send_response", "the handler of '%s' and everything it calls" % _nm, "free_peer_resources"],
+          symbolic="state value (the failing allocation attempt, #%d of %d, is fixed per obligation: %s)" % (_k, _n, "fault-free run" if _k == _n else "daemon or JSON-library allocation"),
+          assumes=["set-up requests succeed (no fault)"],
+          bounds="one '%s' request in which allocation attempt %d fails, then both peers disconnect; 2 peers, <= 1 element, <= 1 fetch" % (_nm, _k),
+          **_scn_alloc)
+_also(["C15.alloc_failure_"], ["C06"])
 
 # ------------------------------------------------------------------------------------------------ C08 / C20 authentication, access, password change
 _scn_auth = dict(_scn, harness="harness/scn_auth.c", flags=_scn["flags"] + ["--no-bounds-check"],
